@@ -126,13 +126,14 @@ def run(ch: Choices, focus: str = "C11", params: Optional[dict] = None) -> dict:
             op = [op[0], ch.choose(nv, "objective")]
     # ----------------------------------------------------------------------------------------------- the plan
     with ch.scope("plan"):
-        template = ["merge", "jitter", "sequential", "reverse", "slow"][ch.choose(5, "template")]
+        template = ["merge", "jitter", "sequential", "reverse", "slow", "race"][ch.choose(6, "template")]
         plan = {"template": template if template in mpsim.DELAYS else "jitter", "faults": {}, "start": {}}
         if template == "sequential":
             plan["start"] = {w: 100000 * w for w in range(nw)}
         elif template == "reverse":
             plan["start"] = {w: 100000 * (nw - 1 - w) for w in range(nw)}
         plan["late_pickle"] = ch.chance(1, 2, "late_pickle")
+        plan["opcost"] = [0, 1, 2, 5][ch.choose(4, "opcost")] if template != "race" else [2, 1, 3, 5][ch.choose(4, "opcost")]
         if ch.chance(1, 4, "stall"):
             plan["stall"] = {ch.choose(nw, "stall.w"): ch.choose(3, "stall.at")}
     cache = {}
